@@ -29,6 +29,7 @@ type State struct {
 	all   bool            // havoc everything except keep
 	set   map[string]bool // havoc exactly these (when !all)
 	keep  map[string]bool
+	pfx   []string // havoc names with these prefixes too
 	memo  map[string]string
 	depth int
 }
@@ -62,12 +63,17 @@ func (s *State) setRaw(name, term string) *State {
 }
 
 func (s *State) havocSet(names map[string]bool) *State {
-	if len(names) == 0 {
+	return s.havocSetP(names, nil)
+}
+
+func (s *State) havocSetP(names map[string]bool, pfx []string) *State {
+	if len(names) == 0 && len(pfx) == 0 {
 		return s
 	}
 	n := s.fc.newState(stHavoc)
 	n.prev = s
 	n.set = names
+	n.pfx = pfx
 	return n
 }
 
@@ -126,6 +132,11 @@ func (s *State) get(name string) string {
 				hit = !cur.keep[name] && !cur.fc.isLocalArr(name)
 			} else {
 				hit = cur.set[name]
+				for _, p := range cur.pfx {
+					if strings.HasPrefix(name, p) {
+						hit = true
+					}
+				}
 			}
 			if hit {
 				symb := fmt.Sprintf("%s@h%d", name, cur.id)
